@@ -165,6 +165,11 @@ CODE = {"": "", "single": "\\brdrs", "dotted": "\\brdrdot", "thick": "\\brdrth",
                    "rtflite.attributes:BroadcastValue.to_list"],
             bounds="3x3 page, attribute value of shape %dx%d recycled over it, target cell and side symbolic (solver-enumerated)" % (vr, vc),
             what="stamping a border on cell (r,c) changes that cell only: no other row, column or side is affected"))
+    # O5: per-row border matrices stay bound to their table rows on every page, whichever strategy built the pages (shared with C09-O5)
+    from .C09 import build as c09_build
+    for ob in c09_build(tier, seed)[0]:
+        if ob.oid == "O5.page_binding":
+            obs.append(ob)
     meta = {
         "explanation": "The three-tier border hierarchy is decided on the real PageFeatureProcessor with a REAL RTFBody carried "
                        "concretely through symbolic control flow (page position, header presence, footnote/source kind and "
